@@ -39,21 +39,33 @@ let add_words w a b =
 let xor_words a b =
   List.map2 (fun x y -> match x, y with BX, _ | _, BX -> BX | _ -> if x = y then B0 else B1) a b
 
-type pdesc = { kind : char; apin : int; src : int; op : char }
+type pdesc = { kind : char; apin : int; src : int; op : char;
+               cmode : char; csrc : int; crel : char; cdata : bool; cconst : int }  (* data dependent write enable *)
 
 let parse_ports s =
   List.filter_map (fun tok ->
       if tok = "" then None else begin
         let kind = tok.[0] in
         let rest = String.sub tok 1 (String.length tok - 1) in
-        match String.split_on_char ':' rest with
-        | [ a ] -> Some { kind; apin = int_of_string a; src = -1; op = 'p' }
-        | a :: sr :: _ ->
-          if String.length sr > 0 && sr.[0] = 'r' then
-            Some { kind; apin = int_of_string a; src = int_of_string (String.sub sr 1 (String.length sr - 2)); op = sr.[String.length sr - 1] }
-          else Some { kind; apin = int_of_string a; src = -1; op = 'p' }
-        | [] -> None
+        let fields = String.split_on_char ':' rest in
+        let a = int_of_string (List.nth fields 0) in
+        let (src, op) = match fields with
+          | _ :: sr :: _ when String.length sr > 0 && sr.[0] = 'r' ->
+            (int_of_string (String.sub sr 1 (String.length sr - 2)), sr.[String.length sr - 1])
+          | _ -> (-1, 'p') in
+        let (cmode, csrc, crel, cdata, cconst) = match fields with
+          | _ :: _ :: c :: _ when String.length c >= 4 ->
+            let isd = c.[3] = 'd' in
+            (c.[0], Char.code c.[1] - Char.code '0', c.[2], isd, if isd then 0 else int_of_string (String.sub c 3 (String.length c - 3)))
+          | _ -> ('-', 0, 'l', false, 0) in
+        Some { kind; apin = a; src; op; cmode; csrc; crel; cdata; cconst }
       end) (String.split_on_char ',' s)
+
+(* Node_Logic AND / OR on 4-state bits (a defined 0 resp. 1 dominates) *)
+let and3 a b = match a, b with B0, _ | _, B0 -> B0 | B1, B1 -> B1 | _ -> BX
+let or3 a b = match a, b with B1, _ | _, B1 -> B1 | B0, B0 -> B0 | _ -> BX
+(* a non-RMW port that writes in the idle cycles while the design is in reset *)
+let writes_in_reset p = (p.kind = 'A' || p.cmode = 'o' || p.cmode = 'r') && p.src < 0
 
 let kvs toks = List.filter_map (fun t -> match String.index_opt t '=' with
     | Some i -> Some (String.sub t 0 i, String.sub t (i + 1) (String.length t - i - 1)) | None -> None) toks
@@ -126,6 +138,17 @@ let () =
             let wdata p din =
               if p.src < 0 then din
               else (let r = nth_read p.src in if p.op = '+' then add_words c.width r din else xor_words r din) in
+            (* Node_Compare: undefined as soon as any operand bit is undefined *)
+            let cond p din =
+              let r = nth_read p.csrc in
+              let x = if p.cdata then din else bv_of_N (nat_of_int c.width) (n_of_int p.cconst) in
+              if is_defined r && is_defined x then begin
+                let a = int_of_bv r and b = int_of_bv x in
+                if (match p.crel with 'l' -> a < b | 'e' -> a = b | _ -> a <> b) then B1 else B0
+              end else BX in
+            let enable p en1 din = match p.cmode with
+              | 'o' -> cond p din | 'a' -> and3 en1 (cond p din) | 'r' -> or3 en1 (cond p din)
+              | _ -> if p.kind = 'A' then B1 else en1 in
             if not c.pp then begin
               (* ---------------- exact model of the simulator *)
               let st = ref ps_init in
@@ -143,7 +166,7 @@ let () =
                     let en1 = tbit_of_string wr.(!wi) and din = bv_of_string wr.(!wi + 1) in
                     wi := !wi + 2;
                     let en2 = if p.kind = 'V' then (let e = tbit_of_string wr.(!wi) in incr wi; Some e) else None in
-                    let wren = if p.kind = 'A' then None else Some en1 in
+                    let wren = if p.kind = 'A' && p.cmode = '-' then None else Some (enable p en1 din) in
                     let (_, st') = port_step cfg c.mem !st { p_read = false; p_write = true }
                         { pi_addr = addr; pi_en = en2; pi_wren = wren; pi_wdata = Some (wdata p din) } in
                     st := st') c.ports;
@@ -162,7 +185,8 @@ let () =
                     wj := !wj + 2;
                     let en2 = if p.kind = 'V' then (let e = wr.(!wj) in incr wj; e) else "1" in
                     let a = int_of_bv (bv_of_string addrs.(p.apin)) in
-                    if (p.kind = 'A' || en1 = "1") && en2 = "1" && a < c.depth then cw := n_of_int a :: !cw) c.ports;
+                    let maybe = match p.cmode with 'o' | 'r' -> true | 'a' -> en1 = "1" | _ -> p.kind = 'A' || en1 = "1" in
+                    if maybe && en2 = "1" && a < c.depth then cw := n_of_int a :: !cw) c.ports;
               List.iter (fun p ->
                   let a = n_of_int (int_of_bv (bv_of_string addrs.(p.apin))) in
                   match p.kind with
@@ -177,20 +201,23 @@ let () =
                     let en1 = wr.(!wi) and din = bv_of_string wr.(!wi + 1) in
                     wi := !wi + 2;
                     let en2 = if p.kind = 'V' then (let e = wr.(!wi) in incr wi; e = "1") else true in
-                    let wen = p.kind = 'A' || en1 = "1" in
+                    (* an undefined enable (read data undefined): the word may or may not be written: open *)
+                    let e3 = enable p (tbit_of_string en1) din in
+                    let wen = e3 <> B0 in
+                    let data = if e3 = BX then all_X w else wdata p din in
                     let (_, f') = tspec_step w depth c.nc start !cw c.arr { p_read = false; p_write = true }
-                        { ai_addr = a; ai_en = en2; ai_wen = wen; ai_wdata = wdata p din } in
+                        { ai_addr = a; ai_en = en2; ai_wen = wen; ai_wdata = data } in
                     c.arr <- f') c.ports;
               (* while in reset an always-enabled port may or may not have written word 0 (reset logic
                  takes the port over): the specification leaves that word open *)
-              if tag = "p" && List.exists (fun p -> p.kind = 'A') c.ports then
+              if tag = "p" && List.exists writes_in_reset c.ports then
                 c.arr <- arr_upd c.arr N0 (all_X w)
             end;
             in
             (* the harness logs ONE idle cycle while the design leaves reset, but several clock edges with these
                idle inputs have happened before: reach the (idempotent) fixed point first *)
             if tag = "p" then begin
-              (if c.pp && List.exists (fun p -> p.kind = 'A') c.ports then c.arr <- arr_upd c.arr N0 (all_X w));
+              (if c.pp && List.exists writes_in_reset c.ports then c.arr <- arr_upd c.arr N0 (all_X w));
               eval_once ()
             end;
             eval_once ();
